@@ -786,11 +786,11 @@ pub fn check_history(obs: &mut Obs, plan: &Plan, h: &RtScope, outcome: &Outcome,
                 obs.violation("polling told to stop does not return successfully", format!("{:?}", result), replay.clone());
                 return;
             }
-            // `before` counts deliveries drained when the signal was enqueued; one more may have
-            // been sent but not yet drained, and one further delivery is allowed by the statement
+            // `before` is exact: every send that preceded the request at which the signal was
+            // enqueued had been drained when that request arrived, and the chunk then being
+            // downloaded is the statement's "at most one further chunk"
             let after = delivered.len().saturating_sub(before);
-            let sent_undrained = 1;
-            if after > 1 + sent_undrained {
+            if after > 1 {
                 obs.violation("more than one chunk delivered after the stop signal", format!("{} deliveries after the signal", after), replay.clone());
                 return;
             }
@@ -824,7 +824,7 @@ distinct = distinct (start, visibility, fault, termination, delivery count) sign
     ctx.assumptions = vec![
         "the directory after the newest volume is empty until its first chunk is uploaded (the statement's upload model); directories after it are not consulted".into(),
         "visibility and faults are keyed to request counts, time is tokio's paused clock; wall time only feeds the hang rule (60 s without a request and no return)".into(),
-        "after a stop signal one delivery may already have been sent but not yet observed at the boundary; the checker allows 1 (statement) + 1 (in flight) further deliveries".into(),
+        "the stop signal is enqueued by the simulator while it serves a download, i.e. when the poller is provably past its stop check: the chunk being downloaded is the one further delivery the statement allows, and the count of earlier deliveries is exact".into(),
     ];
     ctx.floor_evaluations = 20;
     let total: u64 = ctx.tier.pick(400, 20_000);
